@@ -95,6 +95,16 @@ def enumerate_cases(tier):
         for geom, prob, (alpha, beta), dirbc, strat, extr, cycle in itertools.product(
                 (0, 1, 2), (0, 1, 2), PROFILES, (0, 1), (0, 1), (0, 1, 3), (0, 1, 2)):
             cases.append(("core33", base(geom, prob, alpha, beta, dirbc, strat, extr, cycle, nr_exp=5, ntheta_exp=6)))
+    # grids above the 10 000-node threshold behind which the assembly loops, transfers and vector kernels start a thread team
+    # (129x256 = 33 024 nodes; its first coarse level 65x128 = 8 320 stays below), with 1 and 3 threads
+    k = 0
+    for strat, extr, threads in itertools.product((0, 1), (0, 1, 3), (3, 1)):
+        if tier != "thorough" and threads == 1 and extr != 1:
+            continue
+        alpha, beta = PROFILES[1 + k % 6]
+        cases.append(("large", base(k % 3, (k + 1) % 3, alpha, beta, k % 2, strat, extr, (0, 2, 1)[k % 3], div2=3, threads=threads,
+                                    fmg=k % 2, maxit=80)))
+        k += 1
     return cases
 
 
